@@ -148,6 +148,25 @@ def make_cases(chk, rng, ib, kmac, kenc, accept):
         add('second-bcb-bad-after-good', [ca, cb], True, [(n1, e0, 'ok'), (n2, 1, 'fail')], base=S.alter_btsd(blab, 1), plain=pl2, d='D15')
         add('second-bcb-unknown-key-after-good', [ca, cz], True, [(n1, e0, 'ok'), (n2, 1, 'fail')], base=blaz, plain=pl2, d='D15')
         add('first-bcb-bad-second-good', [ca, cb], True, [(n1, e0, 'fail'), (n2, 1, 'ok')], base=S.alter_btsd(blab, e0), plain=pl2)
+    # --- AAD scope naming another block with flags 3 (metadata AND data): built by a conforming source (the Lean model)
+    if ext:
+        sc3 = [[0, 1], [ext[0], 3], [-1, 1]]
+        b3 = S.craft_bib(chk, ib, kmac, [1], n1, scope=sc3)
+        add('scope-flags-3-valid', [b3], False, [(n1, 1, 'ok')])
+        add('scope-flags-3-covered-data-altered', [b3], True, [(n1, 1, 'fail')], base=S.alter_btsd(ib.blocks, ext[0]))
+        c3, enc3 = S.craft_bcb(chk, ib, kenc, [1], n1, [iv()], scope=sc3)
+        add('bcb-scope-flags-3-valid', [c3], False, [(n1, 1, 'ok')], base=enc3, plain=plain, payload=pay['btsd'] if accept else None)
+        add('bcb-scope-flags-3-covered-data-altered', [c3], True, [(n1, 1, 'fail')], base=S.alter_btsd(enc3, ext[0]), plain=plain)
+    # --- duplicated parameter / second result, BCB as well, in front of and behind the genuine one
+    add('dup-param-ids-in-front', [rewrite_asb(bib, lambda c: c['params'].insert(0, (5, {0: 0, -1: 3})))], True, [(n1, 1, 'ok')])
+    add('bcb-dup-param-ids', [rewrite_asb(bcb, lambda c: c['params'].append(c['params'][0]))], True, [(n1, 1, 'ok')], base=encblocks, plain=plain)
+    add('bcb-dup-param-ids-in-front', [rewrite_asb(bcb, lambda c: c['params'].insert(0, (5, {0: 0, -1: 3})))], True, [(n1, 1, 'ok')],
+        base=encblocks, plain=plain)
+    add('bcb-result-count-2', [rewrite_asb(bcb, lambda c: c['results'][0].append((17, b'\x80')))], True, [(n1, 1, 'ok')], base=encblocks, plain=plain)
+    add('bcb-result-count-2-in-front', [rewrite_asb(bcb, lambda c: c['results'][0].insert(0, (17, b'\x80')))], True, [(n1, 1, 'ok')],
+        base=encblocks, plain=plain)
+    add('bcb-dup-result-ids', [rewrite_asb(bcb, lambda c: c['results'][0].append(c['results'][0][0]))], True, [(n1, 1, 'ok')], base=encblocks, plain=plain)
+    add('bcb-result-count-0', [rewrite_asb(bcb, lambda c: c.__setitem__('results', [[]]))], True, [(n1, 1, 'ok')], base=encblocks, plain=plain)
     # --- COSE_Sign1 with an x5chain certificate: the key is usable only if the certificate names the security source
     mat = S._sign1_material()
     add('sign1-valid', [S.craft_bib_sign1(chk, ib, mat['key'], mat['match'], [1], n1, sc)], False, [(n1, 1, 'ok')])
